@@ -103,8 +103,11 @@ func c05Body(x *engine.X) {
 	var midBatchFail string
 	midBatch := func() {
 		lower := postsReturned - finished
+		if lower < 1 {
+			lower = 1 // the handler that is running has not finished: it counts, whether or not its Post has returned yet
+		}
 		if got := ioc.Pending(); got < int64(lower) && midBatchFail == "" {
-			midBatchFail = fmt.Sprintf("inside a posted handler Pending()=%d although %d handlers whose Post has returned have not finished yet", got, lower)
+			midBatchFail = fmt.Sprintf("inside a posted handler Pending()=%d although at least %d posted handlers (this one included) have not finished yet", got, lower)
 		}
 	}
 	writeDone := 0
@@ -138,6 +141,9 @@ func c05Body(x *engine.X) {
 			s.Block(func() bool { return kern.Readable(epfd) }, "the epoll descriptor is not readable")
 			if err := ioc.RunOne(); err != nil {
 				panic(fmt.Sprintf("RunOne: %v", err))
+			}
+			if got := ioc.Pending(); got < 0 && midBatchFail == "" {
+				midBatchFail = fmt.Sprintf("after a loop iteration Pending()=%d", got)
 			}
 		}
 	})
@@ -243,14 +249,32 @@ func orderKey(ran []postRec) string {
 	return s
 }
 
-func c05DFS(tier string) *engine.DFS {
-	dev := 2
-	c05Posters = 2
+// c05Stage: (preemption bound, number of posters). Quick is the single stage (2,2); thorough is a ladder of complete
+// searches, each finished or cut by its budget (a cut depth-first search cannot say which bound it completed).
+type c05Stage struct{ dev, posters int }
+
+var c05Ladder = []c05Stage{{2, 2}, {3, 2}, {2, 3}, {3, 3}}
+
+func c05DFS(tier string, st c05Stage) *engine.DFS {
+	name := "post@" + tier
 	if tier == "thorough" {
-		dev = 3
-		c05Posters = 3
+		name = fmt.Sprintf("post@%s/v%dp%d", tier, st.dev, st.posters)
 	}
-	return &engine.DFS{Name: "post@" + tier, Body: c05Body, Procs: 16, WorkerProcs: 2, ShardDepth: 4, MaxDeviations: dev, MaxPoints: 1500, HangTimeout: 30 * time.Second}
+	body := func(x *engine.X) {
+		c05Posters = st.posters
+		c05Body(x)
+	}
+	return &engine.DFS{Name: name, Body: body, Procs: 16, WorkerProcs: 2, ShardDepth: 4, MaxDeviations: st.dev, MaxPoints: 1500, HangTimeout: 30 * time.Second}
+}
+
+func c05ParseStage(config string) (string, c05Stage) {
+	st := c05Ladder[0]
+	tier := config[strings.Index(config, "@")+1:]
+	if i := strings.Index(tier, "/"); i >= 0 {
+		fmt.Sscanf(tier[i+1:], "v%dp%d", &st.dev, &st.posters)
+		tier = tier[:i]
+	}
+	return tier, st
 }
 
 func c05RacePass(rep *engine.Report) {
@@ -293,22 +317,55 @@ func c05RacePass(rep *engine.Report) {
 func C05(tier string) *engine.Report {
 	rep := engine.NewReport("C05", tier, "model_checking")
 	var tot engine.DFSTotals
-	d := c05DFS(tier)
-	d.Budget = 4 * time.Minute
+	rungs := c05Ladder[:1]
+	budgets := []time.Duration{4 * time.Minute}
 	if tier == "thorough" {
-		d.Budget = 25 * time.Minute
+		rungs = c05Ladder
+		budgets = []time.Duration{3 * time.Minute, 8 * time.Minute, 6 * time.Minute, 8 * time.Minute}
 	}
-	res := d.Run()
-	tot.Add(res, rep)
+	var done *c05Stage
+	var stages []map[string]any
+	executions := 0
+	spare := time.Duration(0)
+	for i, st := range rungs {
+		d := c05DFS(tier, st)
+		d.Budget = budgets[i] + spare
+		t0 := time.Now()
+		res := d.Run()
+		used := time.Since(t0)
+		spare = 0
+		if used < d.Budget {
+			spare = d.Budget - used
+		}
+		tot.Add(res, rep)
+		executions += res.Executions
+		stages = append(stages, map[string]any{"preemption_bound": st.dev, "posters": st.posters, "schedules": res.Executions, "finished": res.Exhaustive, "wall_s": int(used.Seconds()), "violations": len(res.Violations)})
+		if res.Exhaustive {
+			s := st
+			done = &s
+		}
+		if len(res.Violations) > 0 {
+			break
+		}
+	}
 	c05RacePass(rep)
-	tot.Fill(rep, "all interleavings up to the preemption bound of loop L + posters P1,P2 (1-2 posts each; optionally a nested post; loop-side activity between polls: none | arm+cancel a FIFO read | arm+cancel a FIFO write | a FIFO write disarmed inside Poll) over the real poller instrumented by an overlay rewrite (mutex, atomics, plain pending accesses, eventfd read/write are scheduling points); "+
-		"non-trivial = the schedule switched threads at least twice", d.MaxDeviations)
+	tot.Fill(rep, "all interleavings up to the preemption bound of loop L + posters P1,P2 (and, in the later thorough stages, P3) (1-2 posts each; optionally a nested post; loop-side activity between polls: none | arm+cancel a FIFO read | arm+cancel a FIFO write | a FIFO write disarmed inside Poll) over the real poller instrumented by an overlay rewrite (mutex, atomics, plain pending accesses, eventfd read/write are scheduling points); "+
+		"non-trivial = the schedule switched threads at least twice", 0)
+	rep.Coverage["stages"] = stages
+	bound, posters := 0, 0
+	if done != nil {
+		bound, posters = done.dev, done.posters
+	}
+	// what is reported as completed is the last finished stage; later stages cut by their budget are listed under "stages"
+	rep.Coverage["exhaustive"] = done != nil
+	rep.Coverage["deviation_bound_completed"] = bound
+	rep.Coverage["preemption_bound_completed"] = bound
+	rep.Coverage["posters"] = posters
 	// model_checking keys: every schedule is one complete execution of the implementation
-	rep.Coverage["states"] = res.Executions
-	rep.Coverage["transitions"] = res.Executions * 1
-	rep.Coverage["traces_validated_against_impl"] = res.Executions
-	rep.Coverage["schedules"] = res.Executions
-	rep.Coverage["preemption_bound_completed"] = d.MaxDeviations
+	rep.Coverage["states"] = executions
+	rep.Coverage["transitions"] = executions
+	rep.Coverage["traces_validated_against_impl"] = executions
+	rep.Coverage["schedules"] = executions
 	rep.Assumptions = append(rep.Assumptions, "interleavings are sequentially consistent; scheduling points are the hooked operations (cmd/xform) — accesses the rewrite does not hook are covered only by the free-running -race pass, which samples")
 	return rep
 }
@@ -322,5 +379,6 @@ func C05Replay(v engine.Violation, log func(string)) *engine.Violation {
 		}
 		return nil
 	}
-	return c05DFS(v.Config[5:]).ReplayChoices(v.Choices)
+	tier, st := c05ParseStage(v.Config)
+	return c05DFS(tier, st).ReplayChoices(v.Choices)
 }
